@@ -27,7 +27,7 @@ LEVEL_TEXT = (
     "archive path is absent or holds its previous content and a clean re-run succeeds and reproduces the fault-free result"
 )
 LEVEL_NOTE = (
-    "faults are Python exceptions raised at the intercepted sites (no process kill, no power loss); sites: "
+    "faults are Python exceptions raised at the intercepted sites, or the death of the process there (os._exit); no power loss; sites: "
     "Path.write_text/mkdir/unlink, open-for-write+write, np.save/savez, lz4 compress, yaml dump, tarfile open/addfile, "
     "copytree, os.replace, mkdtemp, parts.evolve/match, operators.join/retrieve, recipes.create, user code points"
 )
@@ -95,6 +95,11 @@ class Scenario:
             _mk_base(self.fin, [EP_B, EP_C], init=(6.0, 5), seed0=5)
         self.before = _ops(self.target) if self.target.exists() else None
         self.before_bytes = self.target.read_bytes() if self.target.exists() else None
+
+    def attach(self):
+        """In the child process: paths of an already prepared scenario directory."""
+        self.ini = self.d / "ini.tar"
+        self.fin = self.d / "fin.tar"
 
     # ---- the operation under test
     def run(self, inj):
@@ -186,6 +191,8 @@ def evaluate(case):
     try:
         sc = Scenario(name, d)
         sc.prepare()
+        if any(str(v).endswith("kill") for v in plan.values()):
+            return _evaluate_kill(case, sc, name, plan, log_ref, ops_ref, res)
         exc = None
         with effects.Injector(plan) as inj:
             try:
@@ -245,6 +252,42 @@ def evaluate(case):
                     pass
 
 
+def _evaluate_kill(case, sc, name, plan, log_ref, ops_ref, res):
+    """Crash (process death) at one effect: the scenario runs in a child that dies with os._exit at the planned point."""
+    import json
+    import subprocess
+    import sys
+
+    first = min(plan)
+    label = log_ref[first] if first < len(log_ref) else "?"
+    out = subprocess.run(
+        [sys.executable, "-m", "vf.tools.crash_run", name, json.dumps({str(k): v for k, v in plan.items()}), str(sc.d)],
+        capture_output=True, text=True, timeout=1200,
+    )
+    kind = plan[first]
+    sig = f"{name}/crash@{label}/{kind}"
+    where = f"scenario={name} plan={plan} child exit={out.returncode}"
+    if out.returncode == 0:
+        raise HarnessError(f"planned crash {plan} never reached: child completed")
+    if out.returncode != 137:
+        raise HarnessError(f"child failed unexpectedly ({out.returncode}): {out.stderr[-600:]}")
+    bad = sc.check_after_fault()
+    if bad:
+        res.fail(f"{sig}/{bad[0]}", f"{where}: {bad[1]}")
+    else:
+        try:
+            with effects.Injector() as inj2:
+                sc.run(inj2)
+            d_ = _eq_ops(ops_ref, _ops(sc.target))
+            if d_:
+                res.fail(sig + "/rerun-differs", f"{where}: clean re-run after the crash differs from the fault-free result: {d_}")
+        except Exception as e:  # noqa
+            res.fail(sig + "/rerun-fails", f"{where}: clean re-run on the same path after the crash failed: {type(e).__name__}: {str(e)[:200]}")
+    res.outcome = f"{name}:{label}:killed"
+    res.info = {"label": label}
+    return res
+
+
 WRITE_LABELS = ("file.write",)
 
 
@@ -258,6 +301,11 @@ def run(ctx):
             cases.append({"scenario": name, "plan": {str(i): "raise"}})
             if label in WRITE_LABELS:
                 cases.append({"scenario": name, "plan": {str(i): "torn"}})
+            # process death at the effect (no handler runs); all effects in thorough, the archive-writing tail in quick
+            if ctx.thorough() or i >= len(log) - 14:
+                cases.append({"scenario": name, "plan": {str(i): "kill"}})
+                if label in WRITE_LABELS and ctx.thorough():
+                    cases.append({"scenario": name, "plan": {str(i): "tornkill"}})
         if ctx.thorough():
             # pairs: second fault anywhere later in the (error-handling) continuation; the dynamic index
             # continues counting after the first fault, so j ranges over a window of later effects
@@ -270,11 +318,11 @@ def run(ctx):
     ctx.rule = (
         "one case per (scenario, effect index, fault kind): every intercepted effect of the fault-free run of "
         "each scenario (small LO solve across one threshold; edit session adding and overwriting operators with "
-        "two user-code points; EKO product into a new path; in-place product) is failed once, byte writes also torn; "
+        "two user-code points; EKO product into a new path; in-place product) is failed once, byte writes also torn; process death (os._exit in a child process, no handler runs) at the last 14 effects of each scenario (thorough: at every effect, also after half of a byte write); "
         "thorough adds pairs (i, i<j<=i+8) where the second fault lands in the error path; non-trivial = the fault fired and an exception propagated"
     )
     ctx.assumptions += [
-        "failures are exceptions at intercepted Python-level sites; not modelled: SIGKILL/power loss, faults inside C extensions, post-commit cleanup (rmtree)",
+        "failures are exceptions or process death at intercepted Python-level sites; not modelled: power loss (unsynced data), faults inside C extensions, post-commit cleanup (rmtree)",
     ]
 
 
